@@ -1,0 +1,164 @@
+//go:build verif
+
+package mvp7_1
+
+import (
+	"sort"
+
+	"github.com/teivah/majorana/proc/comp"
+	"github.com/teivah/majorana/risc"
+)
+
+// Verification-only snapshot and rig (build tag "verif").
+
+func verifSnapshot(ctx *risc.Context, ccs []*cacheController, m *msi) comp.VerifMSISnap {
+	s := comp.VerifMSISnap{
+		Sems:       map[int32][2]int{},
+		L1LineSize: l1DCacheLineSize,
+		L1Lines:    l1DCacheSize / l1DCacheLineSize,
+		Mem:        ctx.Memory,
+	}
+	for _, cc := range ccs {
+		c := comp.VerifCore{
+			States:    map[int32]int32{},
+			L1:        comp.VerifCopyLines(cc.l1d),
+			ReadBusy:  !cc.read.IsStart(),
+			WriteBusy: !cc.write.IsStart(),
+			SnoopBusy: !cc.snoop.IsStart(),
+		}
+		for e, st := range m.states {
+			if e.id == cc.id {
+				c.States[int32(e.alignedAddr)] = st
+			}
+		}
+		for a := range cc.rlockSems {
+			c.RLocks = append(c.RLocks, int32(a))
+		}
+		for a := range cc.lockSems {
+			c.Locks = append(c.Locks, int32(a))
+		}
+		sort.Slice(c.RLocks, func(i, j int) bool { return c.RLocks[i] < c.RLocks[j] })
+		sort.Slice(c.Locks, func(i, j int) bool { return c.Locks[i] < c.Locks[j] })
+		s.Cores = append(s.Cores, c)
+	}
+	for a, sem := range m.pendings {
+		r, w := sem.VerifCounts()
+		s.Sems[int32(a)] = [2]int{r, w}
+	}
+	for req := range m.commands {
+		s.Commands = append(s.Commands, [3]int32{int32(req.id), int32(req.alignedAddr), req.request})
+	}
+	sort.Slice(s.Commands, func(i, j int) bool {
+		a, b := s.Commands[i], s.Commands[j]
+		if a[0] != b[0] {
+			return a[0] < b[0]
+		}
+		if a[1] != b[1] {
+			return a[1] < b[1]
+		}
+		return a[2] < b[2]
+	})
+	return s
+}
+
+// VerifSnapshot copies the coherence state of a running CPU.
+func (m *CPU) VerifSnapshot() comp.VerifMSISnap {
+	return verifSnapshot(m.ctx, m.cacheControllers, m.msi)
+}
+
+// VerifRig drives the cache controllers and the MSI directory without a pipeline.
+type VerifRig struct {
+	ctx   *risc.Context
+	ccs   []*cacheController
+	msi   *msi
+	cycle int
+	reads []*ccReadReq
+	wrs   []*ccWriteReq
+}
+
+// VerifDone is a completed rig request.
+type VerifDone struct {
+	Core  int
+	Write bool
+	Addrs []int32
+	Data  []int8
+}
+
+func NewVerifRig(cores, memBytes int) *VerifRig {
+	ctx := risc.NewContext(false, memBytes, true)
+	mmu := newMemoryManagementUnit(ctx)
+	m := newMSI()
+	r := &VerifRig{ctx: ctx, msi: m, reads: make([]*ccReadReq, cores), wrs: make([]*ccWriteReq, cores)}
+	for i := 0; i < cores; i++ {
+		r.ccs = append(r.ccs, newCacheController(i, ctx, mmu, m))
+	}
+	return r
+}
+
+func (r *VerifRig) Context() *risc.Context { return r.ctx }
+
+// Busy reports whether the core has an outstanding request.
+func (r *VerifRig) Busy(core int) bool { return r.reads[core] != nil || r.wrs[core] != nil }
+
+// IssueRead registers a read request for the core (one outstanding request per core).
+func (r *VerifRig) IssueRead(core int, addrs []int32) {
+	r.reads[core] = &ccReadReq{addrs: addrs}
+}
+
+// IssueWrite registers a write request for the core.
+func (r *VerifRig) IssueWrite(core int, addrs []int32, data []int8) {
+	r.wrs[core] = &ccWriteReq{addrs: addrs, data: data}
+}
+
+// Flush models a pipeline flush hitting the core (its execute unit calls cc.flush()).
+func (r *VerifRig) Flush(core int) {
+	r.reads[core] = nil
+	r.wrs[core] = nil
+	r.ccs[core].flush()
+}
+
+// Step runs one cycle in the order the real CPU uses: all snoops, then each core's request.
+func (r *VerifRig) Step() []VerifDone {
+	r.cycle++
+	var done []VerifDone
+	for _, cc := range r.ccs {
+		cc.snoop.Cycle(struct{}{})
+	}
+	for i, cc := range r.ccs {
+		if q := r.reads[i]; q != nil {
+			q.cycle = r.cycle
+			resp := cc.read.Cycle(*q)
+			if resp.done {
+				done = append(done, VerifDone{Core: i, Addrs: q.addrs, Data: resp.data})
+				r.reads[i] = nil
+			}
+		} else if q := r.wrs[i]; q != nil {
+			q.cycle = r.cycle
+			resp := cc.write.Cycle(*q)
+			if resp.done {
+				done = append(done, VerifDone{Core: i, Write: true, Addrs: q.addrs, Data: q.data})
+				r.wrs[i] = nil
+			}
+		}
+	}
+	return done
+}
+
+// Quiescent reports whether no request, coroutine or snoop is in progress.
+func (r *VerifRig) Quiescent() bool {
+	for i, cc := range r.ccs {
+		if r.Busy(i) || !cc.isEmpty() {
+			return false
+		}
+	}
+	return len(r.msi.commands) == 0
+}
+
+func (r *VerifRig) Snapshot() comp.VerifMSISnap { return verifSnapshot(r.ctx, r.ccs, r.msi) }
+
+// Export writes modified lines back exactly as the end of CPU.Run does.
+func (r *VerifRig) Export() {
+	for _, cc := range r.ccs {
+		cc.export()
+	}
+}
